@@ -193,6 +193,30 @@ int main()
         }
       }
 
+      // what lexical_cast<double> (std::stod) answers on the string cells:
+      // <output cast>/<target cast> per row, hex64 | T (throws) | - (not a string)
+      std::string casts(" casts=");
+      {
+        const basic_reg_lambda_f<i_mep, false> agent(prg);
+        auto cast_of = [](const value_t &v) -> std::string
+        {
+          if (v.index() != d_string) return "-";
+          try
+          {
+            const double c(lexical_cast<double>(v));
+            return (c != c) ? std::string("7ff8000000000000") : vv::hex64(vv::bits_of(c));
+          }
+          catch (const std::logic_error &) { return "T"; }
+        };
+        bool first(true);
+        for (const auto &e : d)
+        {
+          if (!first) casts += ",";
+          first = false;
+          casts += cast_of(agent(e)) + "/" + cast_of(e.output);
+        }
+      }
+
       std::string tags;
       auto add_tags = [&](const auto &lambda)
       {
@@ -243,6 +267,12 @@ int main()
         // dataset is reported as the evaluator left it
         thrown = true;
       }
+      catch (const std::logic_error &)
+      {
+        // lexical_cast<double>(string) = std::stod: std::invalid_argument /
+        // std::out_of_range
+        thrown = true;
+      }
 
       std::string diff(" diff=");
       {
@@ -269,7 +299,7 @@ int main()
         }
       }
       std::cout << (thrown ? std::string("THROW") : show_fit(f)) << ' ' << outs << diff
-                << " frame=" << (frame ? 1 : 0) << tags << '\n';
+                << " frame=" << (frame ? 1 : 0) << casts << tags << '\n';
     }
     catch (const std::exception &e)
     {
